@@ -233,3 +233,39 @@ Proof.
   unfold hive_peers. destruct m as [ps|]; cbn; [|discriminate].
   destruct (hive_add_peers_val maxpo base ping ps) as [n ->]; discriminate.
 Qed.
+
+(** ---- chunkinfo ---- *)
+Lemma update_chunk_info_val st bv : update_chunk_info true st bv <> Pan.
+Proof.
+  unfold update_chunk_info. destruct (ci_onfile st); [discriminate|].
+  destruct (ci_chunks st) as [v|]; [|discriminate].
+  destruct (v =? 0); [discriminate|].
+  destruct (N.of_nat (length bv) * 8 <? v); cbn; discriminate.
+Qed.
+
+Lemma queue_keys_val keys : queue_keys true keys = Val tt.
+Proof. induction keys as [|k r IH]; cbn; [reflexivity|]. destruct (is_hex k); cbn; exact IH. Qed.
+
+Lemma chunkinfo_resp_total st fwd m : chunkinfo_resp true st fwd m <> Panicked.
+Proof.
+  unfold chunkinfo_resp, update_queue. destruct m as [resp|]; cbn; [|discriminate].
+  destruct (bytes_eqb (cr_req resp) (ci_self st)); [|destruct fwd; cbn; discriminate].
+  set (p := match cr_presence resp with Some p => p | None => [] end).
+  destruct (map_lookup (hex_of (cr_target resp)) p) as [bv|].
+  - pose proof (update_chunk_info_val st bv) as H.
+    destruct (update_chunk_info true st bv) as [[]|e|]; cbn; try discriminate; [|contradiction].
+    destruct (ci_queue st); [rewrite queue_keys_val|]; cbn; discriminate.
+  - cbn. destruct (ci_queue st); [rewrite queue_keys_val|]; cbn; discriminate.
+Qed.
+
+Lemma chunkinfo_req_total self fwd m : chunkinfo_req self fwd m <> Panicked.
+Proof. unfold chunkinfo_req. destruct m, fwd; cbn; discriminate. Qed.
+
+(** the code as found: a non-hex map key with a discovery queue; a presence vector shorter
+    than the file's chunk count *)
+Lemma chunkinfo_resp_found_panics :
+  chunkinfo_resp false (mkCIState [1] (Some 3) true None) true
+     (Some (mkCIResp [9] [2] [1] (Some [([122;122], [7])]))) = Panicked /\
+  chunkinfo_resp false (mkCIState [1] (Some 3) false None) true
+     (Some (mkCIResp [9] [2] [1] (Some [([48;50], [])]))) = Panicked.
+Proof. split; reflexivity. Qed.
